@@ -3,4 +3,4 @@ From SV Require Import Base Json Canon Sync SyncObs CorrC13.
 
 Lemma run_sync_src_untouched : forall frepr cf o en src dst,
   ob_src (model_call frepr cf o en src dst) = src.
-Proof. intros. unfold model_call. destruct (run_sync frepr cf o en src dst). reflexivity. Qed.
+Proof. intros. unfold model_call, model_call_gen. destruct (run_sync_gen frepr cf false o en src dst). reflexivity. Qed.
